@@ -62,67 +62,67 @@ func isCtxErrCall(info *types.Info, e ast.Expr, ctxFld *types.Var) bool {
 	return isS && s.Sel.Name == "Err" && eng.IsField(info, s.X, ctxFld)
 }
 
-// doneClausesReturn: every branch taken when the context is done - a select clause receiving from ctx.Done(), or the
-// body of `if ctx.Err() != nil` - ends by returning (want nil result when wantNil), without falling through to the
-// rest of the function. A ctx.Err() call used in any other way is not a recognised test (ok=false).
-func doneClausesReturn(info *types.Info, body ast.Node, ctxFld *types.Var, wantNil bool) (int, bool) {
-	n := 0
-	ok := true
-	checkBody := func(stmts []ast.Stmt) {
-		n++
-		if len(stmts) == 0 {
-			ok = false
-			return
+// stoppingTests classifies the context tests of a body: a test (`case <-ctx.Done():` of a select, or an expression
+// with ctx.Err()) is kept when, once it has seen the cancelled context, accept holds for the set of nodes that can
+// still be reached. The returned predicate matches the graph nodes of the kept tests (for a select clause also the
+// evaluation of its channel operand in front of the select, which every path through the select passes);
+// n is the number of tests found and all tells whether all were kept.
+func stoppingTests(g *eng.Graph, info *types.Info, ctxFld *types.Var, accept func(reach map[*eng.GNode]bool) bool) (is func(*eng.GNode) bool, n int, all bool) {
+	errIsNil := func(fc eng.Fact) (eq bool, ok bool) {
+		x, y, e, isEq := eng.EqAtom(fc)
+		if !isEq {
+			return false, false
 		}
-		ret, isR := stmts[len(stmts)-1].(*ast.ReturnStmt)
-		if !isR {
-			ok = false
-			return
+		if (isCtxErrCall(info, x, ctxFld) && eng.IsNil(info, y)) || (isCtxErrCall(info, y, ctxFld) && eng.IsNil(info, x)) {
+			return e, true
 		}
-		if wantNil && (len(ret.Results) != 1 || !eng.IsNil(info, ret.Results[0])) {
-			ok = false
+		return false, false
+	}
+	cancelled := func(fc eng.Fact) bool {
+		eq, ok := errIsNil(fc)
+		return ok && !eq
+	}
+	kept := map[ast.Node]bool{}
+	seen := map[ast.Node]bool{}
+	judge := func(test ast.Node, reach map[*eng.GNode]bool) {
+		if !seen[test] {
+			seen[test] = true
+			n++
 		}
-		// no break/continue/goto inside the branch
-		for _, st := range stmts {
-			ast.Inspect(st, func(x ast.Node) bool {
-				if _, isB := x.(*ast.BranchStmt); isB {
-					ok = false
-				}
-				return true
-			})
+		if accept(reach) {
+			kept[test] = true
 		}
 	}
-	errCallsInIf := map[*ast.CallExpr]bool{}
-	eng.InspectNoLit(body, func(m ast.Node) bool {
-		switch t := m.(type) {
-		case *ast.CommClause:
-			if t.Comm != nil && isDoneRecv(info, t.Comm, ctxFld) {
-				checkBody(t.Body)
+	for _, gn := range g.Nodes {
+		if gn.Node == nil {
+			// the body of a select clause that received from ctx.Done()
+			if cc, isCC := gn.Block.Stmt.(*ast.CommClause); isCC && gn.Block.Kind.String() == "SelectCaseBody" && cc.Comm != nil && isDoneRecv(info, cc.Comm, ctxFld) {
+				judge(cc.Comm, g.Reach(eng.Query{From: []*eng.GNode{gn}}))
 			}
-		case *ast.IfStmt:
-			// if ctx.Err() != nil { ...; return }
-			if be, isB := ast.Unparen(t.Cond).(*ast.BinaryExpr); isB && be.Op == token.NEQ && t.Init == nil {
-				var call ast.Expr
-				if eng.IsNil(info, be.Y) {
-					call = be.X
-				} else if eng.IsNil(info, be.X) {
-					call = be.Y
-				}
-				if call != nil && isCtxErrCall(info, call, ctxFld) {
-					errCallsInIf[ast.Unparen(call).(*ast.CallExpr)] = true
-					checkBody(t.Body.List)
-				}
+			continue
+		}
+		if !isDoneRecv(info, gn.Node, ctxFld) {
+			continue
+		}
+		hasRecv := false
+		eng.InspectNoLit(gn.Node, func(m ast.Node) bool {
+			if u, isU := m.(*ast.UnaryExpr); isU && u.Op == token.ARROW {
+				hasRecv = true
 			}
+			return true
+		})
+		if hasRecv {
+			if !seen[gn.Node] {
+				seen[gn.Node] = true // a receive outside a select clause is kept only if a clause body is found for it
+				n++
+			}
+			continue
 		}
-		return true
-	})
-	eng.InspectNoLit(body, func(m ast.Node) bool {
-		if cl, isC := m.(*ast.CallExpr); isC && isCtxErrCall(info, cl, ctxFld) && !errCallsInIf[cl] {
-			ok = false
-		}
-		return true
-	})
-	return n, ok
+		judge(gn.Node, g.Reach(eng.Query{FromAt: []*eng.GNode{gn}, Assume: cancelled, AvoidEdge: g.Infeasible(cancelled)}))
+	}
+	all = len(kept) == n
+	is = func(gn *eng.GNode) bool { return gn.Node != nil && kept[gn.Node] }
+	return
 }
 
 func runC17(c *eng.Ctx) {
@@ -146,7 +146,6 @@ func runC17(c *eng.Ctx) {
 					hnode = g.NodeOf(s.Call)
 				}
 			}
-			isDone := func(n *eng.GNode) bool { return n.Node != nil && isDoneRecv(info, n.Node, ctxFld) }
 			waitFor := p.Method(pkgQueue, "TaskQueue", "waitForTask")
 			var wnode *eng.GNode
 			for _, n := range g.NodesCalling(waitFor) {
@@ -155,11 +154,13 @@ func runC17(c *eng.Ctx) {
 			if hnode == nil || wnode == nil {
 				r1.Unknown(start.Key+"$worker", worker.Lit.Pos(), "handler / waitForTask call not found")
 			} else {
+				// a context test of the worker counts when, after it saw the cancelled context, neither another task
+				// is waited for nor a handler run
+				isDone, n, all := stoppingTests(g, info, ctxFld, func(reach map[*eng.GNode]bool) bool { return !reach[hnode] && !reach[wnode] })
 				// from the handler call, avoiding Done tests, the next handler call is unreachable
 				reach := g.Reach(eng.Query{From: []*eng.GNode{hnode}, AvoidNode: isDone})
 				r1.Check(!reach[hnode], start.Key+"$worker done-test-after-handler", hnode.Node.Pos(), "a Done test lies between two handler calls", "after a handler returned the worker can pick and run the next task without looking at its context: after shutdown was requested another task is started")
-				n, ok := doneClausesReturn(info, worker.Lit.Body, ctxFld, false)
-				r1.Check(n > 0 && ok, start.Key+"$worker done-branch-returns", worker.Lit.Pos(), "the Done branch returns from the worker", "the Done branch of the worker does not terminate the goroutine")
+				r1.Check(n > 0 && all, start.Key+"$worker done-branch-returns", worker.Lit.Pos(), "the Done branch returns from the worker", "the Done branch of the worker does not terminate the goroutine")
 				// nil from waitForTask: worker returns without calling the handler
 				var tv types.Object
 				if as, isA := wnode.Node.(*ast.AssignStmt); isA && len(as.Lhs) == 1 {
@@ -188,7 +189,19 @@ func runC17(c *eng.Ctx) {
 		// waitForTask
 		winfo := w.Pkg.TypesInfo
 		wg := p.GraphOf(w)
-		isDoneW := func(n *eng.GNode) bool { return n.Node != nil && isDoneRecv(winfo, n.Node, ctxFld) }
+		// a context test of waitForTask counts when, after it saw the cancelled context, only `return nil` can follow
+		isDoneW, nW, allW := stoppingTests(wg, winfo, ctxFld, func(reach map[*eng.GNode]bool) bool {
+			nilRet := 0
+			for m := range reach {
+				if ret, isR := m.Node.(*ast.ReturnStmt); isR {
+					if len(ret.Results) != 1 || !eng.IsNil(winfo, ret.Results[0]) {
+						return false
+					}
+					nilRet++
+				}
+			}
+			return nilRet > 0
+		})
 		nret := 0
 		for _, n := range wg.Nodes {
 			ret, isR := n.Node.(*ast.ReturnStmt)
@@ -201,8 +214,7 @@ func runC17(c *eng.Ctx) {
 		if nret == 0 {
 			r1.Unknown(w.Key+" returns", w.Decl.Pos(), "no `return q.GetFirst()`")
 		}
-		n, ok := doneClausesReturn(winfo, w.Decl.Body, ctxFld, true)
-		r1.Check(n >= 1 && ok, w.Key+" done-branch-returns-nil", w.Decl.Pos(), "every Done branch returns nil", "a Done branch of waitForTask does not return nil")
+		r1.Check(nW >= 1 && allW, w.Key+" done-branch-returns-nil", w.Decl.Pos(), "every Done branch returns nil", "a Done branch of waitForTask does not return nil")
 		// the wait loop tests Done in every iteration
 		var loop *ast.ForStmt
 		eng.InspectNoLit(w.Decl.Body, func(m ast.Node) bool {
